@@ -178,6 +178,24 @@ func (e *c10Env) step(op string) string {
 			}
 		}
 		return "c=" + nsOfTime(e.reg.VerifWatermark()) + " f=" + canonFired(fired)
+	case "advk":
+		// the consumer stops after k timers (Operator.handleWatermark returns from inside the loop when a batch fails),
+		// then the same report is drained: every due timer is handed out exactly once over the two calls (seeded C10-9)
+		k, _ := strconv.Atoi(f[3])
+		var fired []firedTimer
+		for key, t := range e.reg.AdvanceWatermark("sr"+f[1], &workerpb.Watermark{Timestamp: timestamppb.New(timeOfNs(f[2]))}) {
+			fired = append(fired, firedTimer{append([]byte(nil), key...), t})
+			if len(fired) >= k {
+				break
+			}
+		}
+		for key, t := range e.reg.AdvanceWatermark("sr"+f[1], &workerpb.Watermark{Timestamp: timestamppb.New(timeOfNs(f[2]))}) {
+			fired = append(fired, firedTimer{append([]byte(nil), key...), t})
+			if len(fired) > 100000 {
+				return "runaway"
+			}
+		}
+		return "c=" + nsOfTime(e.reg.VerifWatermark()) + " f=" + canonFired(fired)
 	case "earliest":
 		t, ok := e.store.GetEarliest()
 		if !ok {
@@ -317,7 +335,11 @@ func propC10() *lib.Prop {
 					} else {
 						wms[ri] += int64(r.Intn(grid/3+1)) * scale
 					}
-					c.Ops = append(c.Ops, fmt.Sprintf("adv %d %d", ri, wms[ri]))
+					if r.Chance(1, 4) {
+						c.Ops = append(c.Ops, fmt.Sprintf("advk %d %d %d", ri, wms[ri], r.Range(1, 3)))
+					} else {
+						c.Ops = append(c.Ops, fmt.Sprintf("adv %d %d", ri, wms[ri]))
+					}
 				case x < 84:
 					c.Ops = append(c.Ops, "earliest")
 				case x < 89:
